@@ -39,6 +39,8 @@ class Contract:
         self.opaque_raise = kw.pop("opaque_raise", False)
         self.bind = kw.pop("bind", {})
         self.prop = kw.pop("prop", False)
+        self.clause_props = kw.pop("clause_props", {})   # clause-name prefix -> properties it belongs to (default: all of serves)
+        self.ensures_local = _named(kw.pop("ensures_local", {}), "local")   # postconditions that may mention locals
         self.not_assumed = kw.pop("not_assumed", [])   # clauses with an open finding: checked here, never assumed by callers
         self.alloc_facts = kw.pop("alloc_facts", False)   # assume entry-state references denote objects allocated at entry
         self.mutates = kw.pop("mutates", [])      # list-valued parameters the callee changes in place
